@@ -137,6 +137,11 @@ def docs_stream(ctx):
         ("rec {\n  v = \"5\";\n  src = {\n    rev = v;\n  };\n}", ["src.rev"]),
         ("{\n  a = w;\n  name = \"x\";\n}", ["a"]),
         ("rec {\n  a = w;\n  v = \"inner-rec\";\n}", ["a"]),
+        # nested paths: the reference sits in an inner set, binders at both levels
+        ("rec {\n  v = \"0\";\n  a = rec {\n    version = v;\n    v = \"1\";\n  };\n}", ["a.version"]),
+        ("{\n  v = \"0\";\n  a = rec {\n    version = v;\n    v = \"1\";\n  };\n}", ["a.version"]),
+        ("rec {\n  v = \"0\";\n  a = {\n    version = v;\n  };\n}", ["a.version"]),
+        ("rec {\n  a = {\n    b = rec {\n      version = v;\n      v = \"2\";\n    };\n  };\n}", ["a.b.version"]),
     ]
     wrappers = [("bare", "{S}"), ("lambda", "{ pkgs }:\n{S}"), ("lambda-v", "{ v }:\n{S}"),
                 ("with-lit", "with { v = \"7\"; };\n{S}"), ("call", "pkgs.mk {S}"),
@@ -202,7 +207,7 @@ def observe(ctx: fw.Ctx, hists):
             if tw != to:
                 key = {"clause": "defining-binding", "wrapper": h.info.get("wrapper"), "resolves": res[0],
                        "binder": binder_kind(res), "separated": separated(res, before),
-                       "binder_value": binder_value(res)}
+                       "binder_value": binder_value(res), "nested": len(names) > 1}
                 ctx.fail(key, {"doc": h.text, "ops": [list(x.op) for x in h.recs], "at": list(r.op), "before": before,
                                "output": r.out, "expected": want},
                          f"set {r.op[1]!r} through reference {name!r} on {before!r}: got {r.out!r}, expected {want!r}")
